@@ -14,7 +14,7 @@ FIELD_TYPES = ["u8", "i32", "bool", "String", "OptU8", "VecU8", "char", "i64", "
 
 
 def build(r, name, generics=None):
-    n = r.choice([1, 2, 3, 4, 5, 6, 8])
+    n = r.choice([1, 2, 3, 4, 5, 6, 8]) if r.random() > 0.01 else 30
     idents = gen.pick_idents(r, n, pool=IDENTS, avoid_snake_collisions=True)
     vs = []
     for i in range(n):
